@@ -23,7 +23,7 @@ let parse_node (toks : string list) : Model.ntype =
 let read_blocks (ic : in_channel) (f : block -> unit) : unit =
   let cur = ref None in
   let lines = ref [] and files = ref [] and circ = ref [] and raw = ref [] in
-  let pending_file = ref None and pending_nodes = ref 0 in
+  let pending_file = ref None and pending_nodes = ref 0 and skip_nodes = ref false in
   (try
      while true do
        let l = input_line ic in
@@ -36,7 +36,9 @@ let read_blocks (ic : in_channel) (f : block -> unit) : unit =
           else pending_file := Some (k, n - 1, acc)
         | _ ->
           if !pending_nodes > 0 then begin
-            circ := parse_node (split_ws l) :: !circ;
+            (* corpus-size vectors are not converted (unary nat indices): the checkers see an
+               empty circuit plus a `bigcircuit <k>` line and fall back to model-free oracles *)
+            if not !skip_nodes then circ := parse_node (split_ws l) :: !circ;
             decr pending_nodes
           end else
             match split_ws l with
@@ -52,7 +54,10 @@ let read_blocks (ic : in_channel) (f : block -> unit) : unit =
             | ["file"; k; n] ->
               let n = int_of_string n in
               if n = 0 then files := (k, []) :: !files else pending_file := Some (k, n, [])
-            | ["circuit"; n] -> pending_nodes := int_of_string n; circ := []
+            | ["circuit"; n] ->
+              pending_nodes := int_of_string n; circ := [];
+              skip_nodes := int_of_string n > 5000;
+              if !skip_nodes then lines := ("bigcircuit", [n]) :: !lines
             | kw :: toks -> lines := (kw, toks) :: !lines
             | [] -> ())
      done
